@@ -177,20 +177,14 @@ BULK_MOVERS = {
 # unreachable from the public entries because they state value-level facts: (function, kind) -> max
 # number of sites. Any other debug assertion must be discharged (C11 thorough tier, DBGASSERT1).
 DEBUG_ASSERT_UNDECIDED = {
-    ("<CircularBuffer<N, T> as PartialEq<CircularBuffer<M, U>>>::eq", "assert_eq"): (2, "segment lengths agree in the Equal arm (alignment arithmetic)"),
+    ("<CircularBuffer<N, T> as PartialEq<CircularBuffer<M, U>>>::eq", "assert_eq"): (1, "segment lengths agree in the Equal arm (alignment arithmetic)"),
     ("<CircularBuffer<N, T> as PartialEq<[U]>>::eq", "assert_eq"): (2, "split_at(a_left.len()) halves have the lengths of a_left / a_right"),
-    ("CircularBuffer::drop_range", "assert"): (4, "range.start < size, range.end <= size, start < end, range touches a boundary: caller's arithmetic"),
     ("CircularBuffer::extend_from_slice", "assert"): (1, "left.len() >= other.len(): free-space arithmetic"),
     ("CircularBuffer::extend_from_slice", "assert_eq"): (1, "items.len() == other.len() after other[len - N..]"),
     ("CircularBuffer::extend_from_slice::write_uninit_slice_cloned", "assert_eq"): (1, "dst.len() == src.len(): callers slice both to write_len"),
     ("CircularBuffer::to_vec", "assert_eq"): (1, "vec.len() == size after extend(iter().cloned())"),
-    ("CircularSlicePtr::add", "assert"): (2, "offset < slice_len, increment <= slice_len: drain back-fill arithmetic"),
-    ("CircularSlicePtr::as_mut_ptr", "assert"): (1, "offset < slice_len"),
-    ("CircularSlicePtr::as_ptr", "assert"): (1, "offset < slice_len"),
-    ("CircularSlicePtr::available_len", "assert"): (1, "offset < slice_len"),
     ("Iter::advance_back_by", "assert"): (1, "take_right <= right.len(): range arithmetic"),
     ("Iter::advance_front_by", "assert"): (1, "take_left <= left.len(): range arithmetic"),
     ("IterMut::advance_back_by", "assert"): (1, "take_right <= right.len(): range arithmetic"),
     ("IterMut::advance_front_by", "assert"): (1, "take_left <= left.len(): range arithmetic"),
-    ("add_mod", "assert"): (1, "y <= m for y = size / drop_len / range bound: needs size <= N through a caller chain the zone does not carry"),
 }
